@@ -69,7 +69,9 @@ def field_fit(prog_desc):
 
         def norm(t):
             k, v = t
-            return (k, v % 256) if k == "INT" and d["cls"] in ("SETLO", "SETHI") or (k == "INT" and d["cls"].endswith("R") and d["cls"] not in ("XOR", "OR", "LSR", "ASR", "BR")) else (k, v)
+            # byte fields accept -128..255 and read back as 0..255; anything else must not be folded
+            byte_field = k == "INT" and (d["cls"] in ("SETLO", "SETHI") or (d["cls"].endswith("R") and d["cls"] not in ("XOR", "OR", "LSR", "ASR", "BR")))
+            return (k, v % 256) if byte_field and isinstance(v, int) and -128 <= v <= 255 else (k, v)
         if bd["cls"] != d["cls"] or [norm(tuple(t)) for t in bd["toks"]] != [norm(tuple(t)) for t in d["toks"]]:
             return "%s%s is encoded as %04x = %s%s: an operand does not fit its field" % (d["cls"], d["toks"], w, bd["cls"], bd["toks"])
     return None
@@ -143,6 +145,21 @@ def correspondence(ctx, model_available=True):
         res["distribution"]["stage_runs"] += 1
         if bad:
             res["spec_failures"].append({"what": "accepted program, then %s" % bad, "program": text, "mode": mode})
+    # a program longer than the address space: labels beyond 65535 cannot be loaded by SETLO/SETHI
+    for long_text in ["BR(far)\n" + "NOP()\n" * 65540 + "LABEL(far)\nHALT()\n"]:
+        cfg = {"mode": "", "allow_interrupts": False, "no_debug_ops": False, "data_start": 0xC001}
+        ops, pm = pc.real_parse(long_text, cfg)
+        res["cases"] += 1
+        res["distribution"]["long_programs"] = res["distribution"].get("long_programs", 0) + 1
+        if ops is not None and not pm.get("errors"):
+            r = pc.real_check(ops, cfg)
+            if "raise" in r:
+                res["spec_failures"].append({"what": "check raised %s on a 65541-instruction program" % r["raise"]})
+            elif not r["errors"]:
+                bad = field_fit({"code": r["code"][:4]})
+                if bad:
+                    res["spec_failures"].append({"what": "a 65541-instruction program is accepted: %s" % bad,
+                                                 "program": "BR(far) + 65540 x NOP() + LABEL(far) HALT()"})
     # the hand model of checker.check() the theorems are about, on the same programs
     if model_available and mcases:
         import coqrun
